@@ -28,6 +28,7 @@ import (
 	"k8s.io/apimachinery/pkg/runtime"
 	"k8s.io/apimachinery/pkg/runtime/schema"
 	"k8s.io/apimachinery/pkg/types"
+	utiljson "k8s.io/apimachinery/pkg/util/json"
 	"k8s.io/apimachinery/pkg/util/validation/field"
 	"sigs.k8s.io/controller-runtime/pkg/client"
 )
@@ -489,7 +490,7 @@ func (s *Server) toUnstructured(o runtime.Object) (*unstructured.Unstructured, e
 		return nil, err
 	}
 	m := map[string]any{}
-	if err := json.Unmarshal(b, &m); err != nil {
+	if err := utiljson.Unmarshal(b, &m); err != nil {
 		return nil, err
 	}
 	u := &unstructured.Unstructured{Object: m}
